@@ -33,7 +33,7 @@ inpkg_test() {
   local pkg="$1" harness="$2" out="$3"; shift 3
   local moddir="$REPO/$pkg"
   while [ ! -f "$moddir/go.mod" ]; do moddir=$(dirname "$moddir"); done
-  local key; key=$(printf %s "$moddir" | cksum | cut -d' ' -f1)
+  local key; key=$(printf %s "$moddir$harness" | cksum | cut -d' ' -f1)
   local alt="$BUILD/inpkg-$key.mod"
   {
     cat "$moddir/go.mod"
